@@ -38,7 +38,7 @@ m = {
     },
     'engines': [
         {'name': 'H', 'path': 'fw/core.h', 'serves_properties': sorted(k for k, v in T.PROPS.items() if v['level'] == 'model_checking'), 'kind_free_text': 'explicit-state BFS over operation histories replayed on fresh real eventpp objects, lock-step reference model, bounded DFS over in-callback (PROG) choices'},
-        {'name': 'S', 'path': 'fw/sched.h', 'serves_properties': sorted(k for k, v in T.PROPS.items() if v.get('engine', '') == 'S' or (v['level'] == 'exploration' and 'engine' not in v)), 'kind_free_text': 'preemption-bounded cooperative scheduler over real std::threads with injected Threading/QueueList/Map policies and EVENTPP_VERIF_POINT hooks; stateless DFS over schedules'},
+        {'name': 'S', 'path': 'fw/sched.h', 'serves_properties': sorted(k for k, v in T.PROPS.items() if v.get('engine', '') == 'S' or (v['level'] == 'exploration' and 'engine' not in v)), 'kind_free_text': 'preemption-bounded cooperative scheduler over real std::threads with injected Threading/QueueList/Map policies and EVENTPP_VERIF_POINT hooks; stateless DFS over schedules, plus a stateful mode (all interleavings of small configurations, pruned by visited global states); vector-clock happens-before race detection on the shared containers and on tracked payload objects; per-execution lock-order graph'},
     ],
     'checks': checks,
     'notes': 'All checks are bounded exhaustive explorations of the real eventpp code; see DESIGN.md. KNOWN_FINDINGS.txt lists repaired and open defects.',
